@@ -224,6 +224,7 @@ Fixpoint set_nth {A} (l : list A) (i : nat) (a : A) : list A :=
 Definition infer_Compress (onnx_rejects : bool) (inp cond : ity) (axis : option Z) : result (list ity) :=
   if onnx_rejects then Err EInference else
   match inp, cond with
+  | None, _ | _, None => Ok [None]                     (* an untyped input: no check, the output is untyped (after fix F30) *)
   | Some (Tensor e s), Some (Tensor ce cs) =>
       match s with
       | None | Some [] => Ok [Some (Tensor e None)]
